@@ -8,6 +8,7 @@ import (
 	"os"
 	"os/exec"
 	"path/filepath"
+	"runtime"
 	"runtime/debug"
 	"sort"
 	"strings"
@@ -147,6 +148,19 @@ func RunJob(jobPath string) error {
 		b, _ := json.MarshalIndent(jr, "", " ")
 		_ = os.WriteFile(resFile, b, 0o644)
 	}
+	// memory guard: a runaway child must not take the machine down (an OOM is an infrastructure
+	// failure, never a verdict)
+	go func() {
+		for {
+			time.Sleep(2 * time.Second)
+			var ms runtime.MemStats
+			runtime.ReadMemStats(&ms)
+			if ms.Sys > 8<<30 {
+				fmt.Fprintln(os.Stderr, "verif child: memory guard tripped (", ms.Sys>>20, "MiB ), giving up")
+				os.Exit(7)
+			}
+		}
+	}()
 	dbdir, err := os.MkdirTemp("", "verif-db-")
 	if err != nil {
 		return err
@@ -239,10 +253,11 @@ func RunJob(jobPath string) error {
 
 // Finding is one reproduced mismatch.
 type Finding struct {
-	Scenario Scenario
-	Spec     string // TraceKV | TraceBolt | harness
-	Detail   string
-	Line     int
+	Scenario  Scenario
+	Spec      string // TraceKV | TraceBolt | harness
+	Detail    string
+	Line      int
+	TraceFile string // the recorded execution TLC rejected (kept under /verif/out/traces)
 }
 
 // BatchOutcome aggregates what a set of scenarios covered.
@@ -372,8 +387,8 @@ func runChild(tag string, scs []Scenario, workDir string, timeout time.Duration)
 func runBatch(tag string, scs []Scenario, vs ValidateSpec, workDir string, timeout time.Duration, depth int) BatchOutcome {
 	o := BatchOutcome{Counters: map[string]int{}, PerScenario: map[string]map[string]int{}}
 	jr, childOut, werr := runChild(tag, scs, workDir, timeout)
-	if werr != nil && errors.Is(werr, ErrHarness) {
-		o.Infra = append(o.Infra, werr.Error())
+	if werr != nil && (errors.Is(werr, ErrHarness) || strings.Contains(werr.Error(), "exit status 7")) {
+		o.Infra = append(o.Infra, "child "+tag+": "+werr.Error()+" (exit status 7 = memory guard) "+Tail(childOut, 3))
 		return o
 	}
 	if werr != nil {
@@ -451,71 +466,99 @@ func runBatch(tag string, scs []Scenario, vs ValidateSpec, workDir string, timeo
 			o.Findings = append(o.Findings, Finding{Scenario: byName[r.Name], Spec: "harness", Detail: f})
 		}
 	}
+	// validate judges the recorded executions. A rejection is a statement about what the real code DID
+	// (the trace), so it is reproduced by re-validating the rejected scenario's own lines in isolation
+	// (deterministic) rather than by re-executing the scenario (hash-map allocation order and goroutine
+	// schedules differ between executions). The remaining scenarios' lines are then validated again.
 	validate := func(module, file string, from func(ScenarioResult) (int, int)) {
-		r, err := RunTLC(TLCJob{Module: module, Config: module + ".cfg", Files: map[string]string{"trace.ndjson": file}, Timeout: 15 * time.Minute, HeapMB: 3000})
+		lines, err := readLines(file)
 		if err != nil {
 			o.Infra = append(o.Infra, module+": "+err.Error())
 			return
 		}
-		o.TLCStates += r.Distinct
-		if r.OK {
-			for _, sr := range jr.Results {
-				a, b := from(sr)
-				o.Events += int64(b - a + 1)
-			}
-			return
+		type seg struct {
+			name string
+			a, b int // 1-based inclusive line range in `file`
 		}
-		if r.Rejected == 0 && r.Violated == "" {
-			o.Infra = append(o.Infra, module+" did not finish: "+Tail(r.Output, 12))
-			return
-		}
-		// find the scenario containing the rejected line
-		line := r.Rejected
-		hit := ""
+		var segs []seg
 		for _, sr := range jr.Results {
 			a, b := from(sr)
-			if line >= a && line <= b {
-				hit = sr.Name
-			}
-			if line >= a && hit == "" {
-				o.Events += int64(b - a + 1)
+			if b >= a {
+				segs = append(segs, seg{sr.Name, a, b})
 			}
 		}
-		detail := r.Mismatch
-		if detail == "" {
-			detail = r.Violated + " " + Tail(r.Output, 8)
-		}
-		if hit == "" {
-			o.Infra = append(o.Infra, fmt.Sprintf("%s rejected line %d outside any scenario: %s", module, line, detail))
-			return
-		}
-		if len(scs) == 1 {
-			o.Findings = append(o.Findings, Finding{Scenario: byName[hit], Spec: module, Detail: detail, Line: line})
-			// keep the rejected trace next to the replay artefacts (diagnosis)
+		cur := file
+		for round := 0; len(segs) > 0 && round < 12; round++ {
+			if round > 0 {
+				cur = filepath.Join(workDir, fmt.Sprintf("%s.%s.r%d.ndjson", tag, module, round))
+				var buf []string
+				for _, sg := range segs {
+					buf = append(buf, lines[sg.a-1:sg.b]...)
+				}
+				if err := os.WriteFile(cur, []byte(strings.Join(buf, "")), 0o644); err != nil {
+					o.Infra = append(o.Infra, err.Error())
+					return
+				}
+			}
+			r, err := RunTLC(TLCJob{Module: module, Config: module + ".cfg", Files: map[string]string{"trace.ndjson": cur}, Timeout: 15 * time.Minute, HeapMB: 3000})
+			if err != nil {
+				o.Infra = append(o.Infra, module+": "+err.Error())
+				return
+			}
+			o.TLCStates += r.Distinct
+			if r.OK {
+				for _, sg := range segs {
+					o.Events += int64(sg.b - sg.a + 1)
+				}
+				return
+			}
+			if r.Rejected == 0 {
+				o.Infra = append(o.Infra, module+" did not finish: "+Tail(r.Output, 12))
+				return
+			}
+			// which scenario holds the rejected line (positions are relative to the concatenation of segs)
+			pos, hit := 0, -1
+			for i, sg := range segs {
+				n := sg.b - sg.a + 1
+				if r.Rejected > pos && r.Rejected <= pos+n {
+					hit = i
+					break
+				}
+				pos += n
+				o.Events += int64(n)
+			}
+			if round == 0 {
+				// in the original file positions are absolute
+				hit = -1
+				for i, sg := range segs {
+					if r.Rejected >= sg.a && r.Rejected <= sg.b {
+						hit = i
+					}
+				}
+			}
+			if hit < 0 {
+				o.Infra = append(o.Infra, fmt.Sprintf("%s rejected line %d outside any scenario: %s", module, r.Rejected, r.Mismatch))
+				return
+			}
+			sg := segs[hit]
+			// isolate: the rejected scenario's own lines, kept as the replay artefact
 			td := filepath.Join(VerifRoot, "out", "traces")
 			_ = os.MkdirAll(td, 0o755)
-			_ = copyFile(file, filepath.Join(td, hit+"."+module+".ndjson"))
-			return
-		}
-		// triage: the failing scenario alone (reproduction), and the rest separately
-		var rest []Scenario
-		for _, sc := range scs {
-			if sc.Name != hit {
-				rest = append(rest, sc)
+			keep := filepath.Join(td, sg.name+"."+module+".ndjson")
+			_ = os.WriteFile(keep, []byte(strings.Join(lines[sg.a-1:sg.b], "")), 0o644)
+			r1, err := RunTLC(TLCJob{Module: module, Config: module + ".cfg", Files: map[string]string{"trace.ndjson": keep}, Timeout: 15 * time.Minute, HeapMB: 3000})
+			if err != nil || (!r1.OK && r1.Rejected == 0) {
+				o.Infra = append(o.Infra, fmt.Sprintf("%s: isolated re-validation of %s failed: %v %s", module, sg.name, err, Tail(r1.Output, 8)))
+			} else if r1.OK {
+				o.Infra = append(o.Infra, fmt.Sprintf("%s rejected scenario %s inside its batch (line %d) but accepts its lines in isolation: %s", module, sg.name, r.Rejected, r.Mismatch))
+			} else {
+				d := r1.Mismatch
+				if d == "" {
+					d = r1.Violated + " " + Tail(r1.Output, 8)
+				}
+				o.Findings = append(o.Findings, Finding{Scenario: byName[sg.name], Spec: module, Detail: d, Line: r1.Rejected, TraceFile: keep})
 			}
-		}
-		only := ValidateSpec{KV: module == "TraceKV", Bolt: module == "TraceBolt"}
-		x := runBatch(tag+"t", []Scenario{byName[hit]}, only, workDir, timeout, depth+1)
-		if len(x.Findings) == 0 {
-			o.Infra = append(o.Infra, fmt.Sprintf("%s rejected scenario %s at line %d but the re-run was accepted: %s", module, hit, line, detail))
-		}
-		o.Findings = append(o.Findings, x.Findings...)
-		o.Infra = append(o.Infra, x.Infra...)
-		if len(rest) > 0 && depth < 3 {
-			y := runBatch(tag+"u", rest, only, workDir, timeout, depth+1)
-			o.Findings = append(o.Findings, y.Findings...)
-			o.Infra = append(o.Infra, y.Infra...)
-			o.Events += y.Events
+			segs = append(segs[:hit:hit], segs[hit+1:]...)
 		}
 	}
 	if vs.KV {
@@ -534,4 +577,16 @@ func firstLines(s string, n int) string {
 		l = l[:n]
 	}
 	return strings.Join(l, " | ")
+}
+
+func readLines(path string) ([]string, error) {
+	raw, err := os.ReadFile(path)
+	if err != nil {
+		return nil, err
+	}
+	parts := strings.SplitAfter(string(raw), "\n")
+	if len(parts) > 0 && parts[len(parts)-1] == "" {
+		parts = parts[:len(parts)-1]
+	}
+	return parts, nil
 }
